@@ -135,6 +135,21 @@ func Config(r *rand.Rand) originium.Config {
 	}
 }
 
+// ConfigWide draws from the whole range a user may configure: zero values (the engine substitutes its
+// defaults: 4 MiB memtable, 4 KiB blocks, L0 target 5, ratio 10, skiplist 9/0.5), the default-sized
+// flush queue, block thresholds above the memtable threshold, larger level geometry.
+func ConfigWide(r *rand.Rand) originium.Config {
+	return originium.Config{
+		SkipListMaxLevel:       []int{0, 1, 2, 9, 32}[r.Intn(5)],
+		SkipListP:              []float64{0, 0.25, 0.5, 0.99}[r.Intn(4)],
+		MemtableByteThreshold:  []int{1, 64, 300, 1000, 4096, 16384, 65536}[r.Intn(7)],
+		ImmutableBuffer:        []int{0, 1, 3, 10, 16}[r.Intn(5)],
+		DataBlockByteThreshold: []int{0, 1, 32, 200, 4096, 16384, 65536}[r.Intn(7)],
+		L0TargetNum:            []int{0, 1, 2, 4, 5, 6}[r.Intn(6)],
+		LevelRatio:             []int{0, 1, 2, 4, 10}[r.Intn(5)],
+	}
+}
+
 func CfgString(c originium.Config) string {
 	return fmt.Sprintf("mem=%d imm=%d blk=%d l0=%d ratio=%d sl=%d/%.1f", c.MemtableByteThreshold, c.ImmutableBuffer,
 		c.DataBlockByteThreshold, c.L0TargetNum, c.LevelRatio, c.SkipListMaxLevel, c.SkipListP)
